@@ -47,6 +47,19 @@ import (
 
 func catalogueYAML() string { return catalogueYAMLFor(false) }
 
+// catalogueYAMLVariant: 0 terse, 1 verbose with every response code overridden, 2 terse with the overrides and
+// without a default rule (a request no rule covers is then answered by the "no rule" path of the entry point).
+func catalogueYAMLVariant(vi int) string {
+	switch vi {
+	case 0:
+		return catalogueYAMLFor(false)
+	case 1:
+		return catalogueYAMLFor(true)
+	}
+	y := strings.ReplaceAll(catalogueYAMLFor(true), "verbose: true", "verbose: false")
+	return y[:strings.Index(y, "default_rule:")]
+}
+
 func catalogueYAMLFor(verbose bool) string {
 	head := ""
 	if verbose {
@@ -493,18 +506,19 @@ func getWorlds() (*worlds, error) {
 		addWWW := func(c *config.Configuration) {
 			c.Prototypes.ErrorHandlers = append(c.Prototypes.ErrorHandlers, config.Mechanism{ID: "www", Type: "www_authenticate", Config: map[string]any{"realm": "sim"}})
 		}
-		for vi, verbose := range []bool{false, true} {
+		for vi := 0; vi < 3; vi++ {
+			verbose := vi == 1
 			lg := logger
 			if verbose {
 				tl := zerolog.New(io.Discard).Level(zerolog.TraceLevel)
 				lg = &tl
 			}
 			var v worldVariant
-			if v.decision, err = world.Build(world.Options{ConfigYAML: catalogueYAMLFor(verbose), Mode: config.DecisionMode, Cache: &noop.Cache{}, Mutate: addWWW, Logger: lg}); err != nil {
+			if v.decision, err = world.Build(world.Options{ConfigYAML: catalogueYAMLVariant(vi), Mode: config.DecisionMode, Cache: &noop.Cache{}, Mutate: addWWW, Logger: lg}); err != nil {
 				worldErr = err
 				return
 			}
-			if v.proxy, err = world.Build(world.Options{ConfigYAML: catalogueYAMLFor(verbose), Mode: config.ProxyMode, Cache: &noop.Cache{}, Mutate: addWWW, Logger: lg}); err != nil {
+			if v.proxy, err = world.Build(world.Options{ConfigYAML: catalogueYAMLVariant(vi), Mode: config.ProxyMode, Cache: &noop.Cache{}, Mutate: addWWW, Logger: lg}); err != nil {
 				worldErr = err
 				return
 			}
@@ -1000,7 +1014,7 @@ func pipeSim(r *simcore.Run) {
 		r.Fail("infra", "build", "%v", err)
 		return
 	}
-	variant := s.Draw(2, "world-variant")
+	variant := []int{0, 1, 0, 1, 2}[s.Draw(5, "world-variant")]
 	w.use(variant)
 	defer w.use(0)
 	entry := simcore.Pick(s, []string{"decision", "proxy", "envoy"}, "entry")
@@ -1048,13 +1062,13 @@ func pipeSim(r *simcore.Run) {
 			c.jwtVia = []int{0, 0, 1, 2, 3}[s.Draw(5, "jwt-via")]
 		}
 		if c.token == 1 || c.token == 2 {
-			c.tokVia = []int{0, 0, 1, 2, 3, 4}[s.Draw(6, "token-via")]
+			c.tokVia = []int{0, 0, 1, 2, 3, 4, 4, 4}[s.Draw(8, "token-via")]
 			if c.tokVia == 4 && c.basic != 0 {
 				c.tokVia = 0 // one Authorization header per request
 			}
 		}
 		if c.token == 2 {
-			c.tokShape = s.Draw(4, "token-shape")
+			c.tokShape = []int{0, 1, 2, 3, 3}[s.Draw(5, "token-shape")]
 		}
 		if c.jwt == 2 {
 			c.jwtShape = s.Draw(4, "jwt-shape")
@@ -1153,7 +1167,7 @@ func pipeSim(r *simcore.Run) {
 		if matched {
 			allowed, unknown, why = allowedExpected(p, c, partyOK, cur.pdpAllow)
 		} else {
-			allowed, why = false, "no rule matches; the default rule rejects everyone"
+			allowed, why = false, "no rule matches; the default rule (where there is one) rejects everyone"
 		}
 		ch := chainModel(p, c, partyOK)
 		r.Count("requests", 1)
